@@ -28,7 +28,10 @@ RULE = ("one case = one value x one route (pickle protocol 0..5, copy.copy, copy
         "copied first, then the default-named one); two names on one offset; calls that RAISED earlier (offset beyond timedelta's range, unknown zone name); earlier copies "
         "of values that are == to / share a key with the value yet distinguishable (one instant in three zones, fold 0/1, Time aware/naive, Date vs midnight DateTime, "
         "Duration(years=1,days=1) vs Duration(days=366) vs timedelta, Intervals of one length); named zones after timezone(name) / earlier copies / ZoneInfo of the same key; "
-        "process-wide configuration set earlier (set_local_timezone(named fixed zone / tz-database zone), set_locale). Oracle for these: the copy is judged exactly as without "
+        "process-wide configuration set earlier (set_local_timezone(named fixed zone / tz-database zone), set_locale); hist-adjacent: a sample of neighbouring "
+        "values of the plain streams, one copied and then the other along the same route, in both orders. Plain cases are run in fresh-process state as well (the state "
+        "is put back before every case), so every failing case is reproducible from the case alone and what one value leaves behind for the next is examined by the "
+        "hist-* streams (and by the runner's reverse-order / ambient passes). Oracle for these: the copy is judged exactly as without "
         "a history, every call of the history must return what it returns in a fresh process (default name / offset / exception), and neither the original nor the copy may "
         "change afterwards. non-trivial = distinct (value, route, history).")
 EXHAUSTIVE = {"quick": False, "thorough": False}
